@@ -2,6 +2,7 @@ package iavl
 
 import (
 	"encoding/binary"
+	"errors"
 	"fmt"
 )
 
@@ -80,6 +81,9 @@ func (i *CompressImporter) Add(node *ExportNode) error {
 		i.minKeyStack = append(i.minKeyStack, key)
 		i.versionStack = append(i.versionStack, node.Version)
 	} else {
+		if len(i.minKeyStack) < 1 || len(i.versionStack) < 2 {
+			return errors.New("inner node without two preceding subtrees in compressed node stream")
+		}
 		// use the min-key in right branch as the node key
 		node.Key = i.minKeyStack[len(i.minKeyStack)-1]
 		// leave the min-key in left branch in the stack
